@@ -49,6 +49,13 @@ N = [
      [(MAIN, "        for p in path.rglob(\"*.css\"):", "        for p in sorted(path.rglob(\"*.css\")):")]),
     ("reworded-error-messages", ["C12", "C14", "C17"],
      [(COL, "            self._error = str(e)\n            self._parsed = True", "            self._error = f\"could not read colour {self.original!r}: {e}\"\n            self._parsed = True")]),
+    ("renamed-search-routines", ALL,
+     [(OPT, "generate_accessible_color", "_multi_phase_search"), (OPT, "binary_search_lightness", "_lightness_search"), (OPT, "gradient_descent_oklch", "_descent_search")]),
+    ("renamed-format-helpers", ALL,
+     [("src/cm_colors/core/color_parser.py", "format_color", "_render_as"), ("src/cm_colors/core/color_parser.py", "detect_color_format", "_detect_format"),
+      (COL, "format_color", "_render_as"), (COL, "detect_color_format", "_detect_format")]),
+    ("renamed-report-helpers", ["C08", "C17", "C19"],
+     [(VIS, "def to_html(", "def _card_html("), (VIS, "cards_html += to_html(", "cards_html += _card_html(")]),
     ("hue-via-math-degrees", ["C03", "C04", "C10", "C11"],
      [(CONV, "    hue = math.atan2(b, a) * 180 / math.pi\n    return hue + 360 if hue < 0 else hue", "    hue = math.degrees(math.atan2(b, a))\n    return hue + 360.0 if hue < 0 else hue")]),
 ]
